@@ -311,8 +311,15 @@ func (node *Node) clone(tree *MutableTree) (*Node, error) {
 		if err != nil {
 			return nil, err
 		}
-		node.leftNode = nil
-		node.rightNode = nil
+		// A persisted node is shared with concurrent readers of committed versions: its child
+		// pointers are normally nil already, and storing nil again would still be a write that
+		// races with their reads.
+		if node.leftNode != nil {
+			node.leftNode = nil
+		}
+		if node.rightNode != nil {
+			node.rightNode = nil
+		}
 	}
 
 	return &Node{
